@@ -143,12 +143,7 @@ theorem join_continuation (r0 : Rd) (l1 l2 : Str) (ls rest : List Str) (t1 b1 : 
                  fifo := joinComments (r0.linecount + 2) (c :: cs) }) := by
   have hg := getSourceItem_join r0 l1 l2 ls rest t1 b1 lab nam c cs hfifo h1 h2 h3 h4 hsrc hcpp hlab hnam
     hb1 hc2 hck hw hne
-  obtain ⟨n, hn⟩ := nextRawFuel_pos r0
-  unfold next1
-  rw [hn]
-  unfold nextRaw popOrRead
-  simp only [hfifo, hg, Item.isComment, Bool.false_and, Bool.false_eq_true, if_false]
-  apply splitSemicolon_stable
+  refine next1_of_getSourceItem r0 _ _ hfifo hg (by simp [Item.isComment]) ?_
   intro text l nm s e hv
   simp only [Item.lineView, Option.some.injEq, Prod.mk.injEq] at hv
   rw [← hv.1]; exact hsemi
@@ -228,10 +223,18 @@ example : (drainEv 3 [] 10 (mkFree ["x = 1; 20 nm: do i = 1, 2"])).map (·.1) =
           .item (.line "do i = 1, 2".toList (some 20) (some "nm".toList) 1 1)] := by
   decide +kernel
 
-/-- F-C12-1 (open): a leading `;` makes `Line("")` raise inside `next`; the exception is turned
-    into `StopIteration`, `get_item` returns `None` once, and `x = 1` is silently lost. -/
-theorem leading_semicolon_drops_statement_witness :
-    evTexts (drainEv 3 [] 10 (mkFree ["program p", "; x = 1", "y = 2", "end program p"])) =
+/-- F-C12-1, leading `;`: repaired at HEAD (42102a3). An empty first part is skipped and a
+    separators-only line reads on, so `x = 1` is delivered. -/
+theorem leading_semicolon_repaired_witness :
+    evTexts (drainEv 3 [] 10 (mkFree ["program p", "; x = 1", ";", " ; ; ", "y = 2", "end program p"])) =
+      ["program p", "x = 1", "y = 2", "end program p"] := by
+  decide +kernel
+
+/-- F-C12-1 (still open): a label (or construct name) in front of an empty first part: `Line("")`
+    raises inside `next`, the exception becomes `StopIteration`, `get_item` returns `None` once and
+    `x = 1` is silently lost. -/
+theorem label_semicolon_drops_statement_witness :
+    evTexts (drainEv 3 [] 10 (mkFree ["program p", "10 ; x = 1", "y = 2", "end program p"])) =
       ["program p", "<None>", "y = 2", "end program p"] := by
   decide +kernel
 
